@@ -243,6 +243,32 @@ def print_assumptions(prop, prop_dir, theorems):
     return res
 
 
+def coqchk_props(prop_dir, timeout=3000):
+    """coqchk -o on the .vo closure of coq/<dir>/Props.vo: the independent checker re-checks every
+    compiled file the property theorems depend on and prints the axioms of the whole context
+    (all loaded libraries, so this list can be longer than Print Assumptions of the theorems)."""
+    t0 = time.time()
+    rc, out = sh("timeout %d coqchk -silent -o -R . NV NV.%s.Props" % (timeout, prop_dir.replace("/", ".")),
+                 cwd=COQ, timeout=timeout + 60)
+    if rc != 0:
+        raise MachineryError("coqchk failed on NV.%s.Props:\n%s" % (prop_dir, out[-1500:]))
+    m = re.search(r"\* Axioms:(.*?)\n\s*\n\* Constants/Inductives relying on type-in-type:(.*?)\n\s*\n"
+                  r"\* Constants/Inductives relying on unsafe \(co\)fixpoints:(.*?)\n\s*\n"
+                  r"\* Inductives whose positivity is assumed:(.*?)(?:\n\s*\n|\Z)", out, re.S)
+    if not m:
+        raise MachineryError("cannot parse coqchk summary:\n" + out[-1500:])
+    axioms = [a.strip() for a in m.group(1).split("\n") if a.strip() and a.strip() != "<none>"]
+    for i, what in ((2, "type-in-type"), (3, "unsafe fixpoints"), (4, "assumed positivity")):
+        if m.group(i).strip() != "<none>":
+            raise MachineryError("coqchk reports %s: %s" % (what, m.group(i).strip()[:300]))
+    # every axiom of the context must be one that the standard library itself declares
+    bad = [a for a in axioms if not a.startswith("Coq.")]
+    # (informational: the strict per-theorem gate is Print Assumptions + check_axioms; this list
+    # covers every library loaded by the closure, whether or not a property theorem uses it)
+    return {"ok": True, "axioms_of_context": axioms, "axioms_outside_stdlib_in_context": bad,
+            "wall_s": round(time.time() - t0, 1)}
+
+
 PRIMITIVE_PREFIXES = ("PrimFloat.", "Uint63.", "PrimInt63.", "Sint63.", "PArray.", "FloatOps.", "PrimFloat", "Uint63")
 
 
@@ -576,6 +602,9 @@ def run_check(chk, tier, seed):
         ax = print_assumptions(chk.prop, chk.coq_dir, thms)
         check_axioms(ax)
         res.theorem_axioms = ax
+    # 3b. thorough tier: re-check the compiled closure of Props.vo with the independent checker
+    if ok and tier == "thorough" and os.environ.get("VERIF_NO_COQCHK") != "1":
+        res.coverage["coqchk"] = coqchk_props(chk.coq_dir)
     # 4. correspondence
     hints = []
     if model_ok:
